@@ -17,6 +17,19 @@ LEVEL = "proof"
 IMPLS = ["mem", "dir", "gmem", "gdir"]
 
 
+# directed histories (run after the generated ones): names that look like temporary files next to the name being created
+# atomically, hard links to them, and directory listings before and after a link or delete that crosses directories
+DIRECTED = [
+    "newfs", "mkdir d1", "atomic d1 e.tmp aa01", "link d1 e.tmp d1 keep", "atomic d1 e bb02bb", "open d1 e.tmp", "readat 0 0 100", "open d1 keep", "readat 1 0 100",
+    "open d1 e", "readat 2 0 100", "list d1", "create d1 e.tmp", "atomic d1 e cc", "open d1 e.tmp", "readat 3 0 100", "list d1",
+    "newfs", "mkdir d1", "create d1 a.tmp", "append 0 0102", "atomic d1 a 0a0b0c", "append 0 03", "close 0", "open d1 a.tmp", "readat 1 0 100", "open d1 a", "readat 2 0 100", "list d1",
+    "newfs", "mkdir d1", "mkdir d2", "atomic d1 a 11", "list d2", "list d1", "link d1 a d2 b", "list d2", "list d1", "delete d1 a", "list d1", "list d2",
+    "open d2 b", "readat 0 0 10", "link d2 b d1 c", "list d1", "list d2", "delete d2 b", "list d2", "list d1", "create d2 b", "list d2",
+    "newfs", "mkdir d1", "mkdir d2", "list d1", "list d2", "create d1 x", "list d1", "list d2", "link d1 x d2 x", "list d2", "link d1 x d2 x", "delete d1 x", "list d1", "list d2",
+    "atomic d2 y 01", "list d2", "list d1",
+]
+
+
 def is_start(op):
     return op == "newfs"
 
@@ -76,7 +89,7 @@ def check(ctx, prop="C12"):
     replies = collections.Counter()
     known_hits = {}
     try:
-        ops = C.hcorr("fs", "gen", ["-seed", str(ctx.seed), "-tier", ctx.tier])
+        ops = C.hcorr("fs", "gen", ["-seed", str(ctx.seed), "-tier", ctx.tier]) + DIRECTED
         ref = model_run("ref", ops) if build.driver_ok else None
         hs = C.split_histories(ops, is_start)
         stats["ops"] = len(ops)
